@@ -260,17 +260,19 @@ PROPS["C15"] = Prop(harnesses=_rl_h, functions=PROPS["C02"].functions, bounds=PR
 # C16 reconnect
 # ---------------------------------------------------------------------------
 _r16 = lambda n, what, **kw: H("verif_kani::c16::" + n, RECONNECT, what,
-    "one request, <= 4 polls with any clock advance before each; max_attempts None or 0..=1; inner outcomes symbolic (ok / reconnectable / other error), inner futures complete at a poll of the solver's choice; another request may mark the shared state connected before any poll",
+    "one request, <= 4 polls, the clock advanced by exactly the policy delay between them (early polls: harness not_connected_while_failing); max_attempts None or 0..=1; inner outcomes symbolic (ok / reconnectable / other error); another request may mark the shared state connected before any poll",
     models=("tokio", "rand"), profile="service", playback=False, mem_gb=24, timeout=2400, **kw)
 PROPS["C16"] = Prop(
-    harnesses=[_r16("custom_policy_predicate_retry", "custom policy with per-attempt delays, predicate, retry on"),
+    harnesses=[_r16("not_connected_while_failing", "state is not Connected, and no call is issued, during the back-off and while the retried call is in flight"),
+               _r16("custom_policy_predicate_retry", "custom policy with per-attempt delays, predicate, retry on"),
                _r16("custom_policy_no_predicate", "custom policy, no predicate", tiers=("thorough",)),
                _r16("fixed_policy_no_retry", "fixed policy, retry_on_reconnect off"),
                _r16("no_policy", "policy None", tiers=("thorough",))],
-    functions=["tower_resilience_reconnect::service::{ReconnectService::{new,poll_ready,call},ReconnectFuture::poll}", "ReconnectConfig::should_reconnect", "ReconnectPolicy::delay_for_attempt", "ReconnectState::{mark_connected,mark_disconnected,mark_reconnecting,state}"],
+    functions=["tower_resilience_reconnect::service::{ReconnectService::{new,poll_ready,call},ReconnectFuture::poll}", "ReconnectConfig::should_reconnect", "(ReconnectPolicy::delay_for_attempt is scripted here; its values are C14)", "ReconnectState::{mark_connected,mark_disconnected,mark_reconnecting,state}"],
     bounds="one request, <= 4 polls, max_attempts <= 1 or unlimited (then bounded by the 4 polls), delays <= 10 s",
     outside="exponential/jittered policies here (their delays are C14); more than 4 polls; u32 overflow of the attempt counter after 2^32 failures with unlimited attempts",
-    assumptions=["tokio::time::Sleep replaced by the virtual-clock model; Instant::now -> virtual clock", "the predicate sees InnerErr codes (only error type in the harness)"],
+    assumptions=["tokio::time::Sleep replaced by the virtual-clock model; Instant::now -> virtual clock", "the predicate sees InnerErr codes (only error type in the harness)",
+                 "ReconnectPolicy::delay_for_attempt stubbed by a script returning a harness-chosen delay per attempt (None for 'no policy')"],
 )
 
 # ---------------------------------------------------------------------------
@@ -293,6 +295,60 @@ PROPS["C18"] = Prop(
     outside="the THRESHOLD part of C18 (status flips after failure_threshold / success_threshold consecutive checks): that logic is a closure nested in two tokio::spawn calls inside "
             "HealthCheckWrapper::start and is not reached by these harnesses; random strategy (feature `random`); more than 3 resources; wrap-around of the round-robin counter at usize::MAX",
     assumptions=["std::hash::RandomState::new stubbed (zeroed keys; the extension map is never touched)"],
+)
+
+# ---------------------------------------------------------------------------
+# C06 time limiter
+# ---------------------------------------------------------------------------
+TLM = "tower-resilience-timelimiter"
+_t6 = lambda n, what, **kw: H("verif_kani::c06::" + n, TLM, what,
+    "one call; timeout any whole ms <= 60 s; inner latency any whole ms <= 90 s (below / equal / above the timeout) or never; ok/err outcome; 2 polls with an arbitrary clock advance between them; "
+    "non-cancel mode: the spawned task is scheduled at the solver's choice before each poll",
+    models=("tokio",), profile="service", playback=False, mem_gb=34, timeout=2400, **kw)
+PROPS["C06"] = Prop(
+    harnesses=[_t6("cancel_fixed_timeout", "cancellation on, fixed timeout"), _t6("cancel_per_request_timeout", "cancellation on, per-request timeout", tiers=("thorough",)),
+               _t6("no_cancel_fixed_timeout", "cancellation off: spawn + oneshot + select!; background call keeps running")],
+    functions=["tower_resilience_timelimiter::TimeLimiter::{new,poll_ready,call}", "TimeoutFn::get_timeout (FixedTimeout, DynamicTimeout)"],
+    bounds="one call, 2 polls, timeout <= 60 s, latency <= 90 s or never",
+    outside="several concurrent calls (they share no state: each call future owns its clone and its timer); that tokio's timer wakes the task AT the deadline is tokio's (the model lets the harness poll at any instant, so 'never pending at or after the deadline' is what is decided)",
+    assumptions=["tokio::time::{timeout,sleep}, spawn, oneshot replaced by the model; `select!` is tokio's own macro text with the start branch chosen by the solver", "Instant::now -> virtual clock"],
+)
+
+# ---------------------------------------------------------------------------
+# C12 hedge
+# ---------------------------------------------------------------------------
+HEDGE = "tower-resilience-hedge"
+_h12 = lambda n, what, bound, timeout=3000, **kw: H("verif_kani::c12::" + n, HEDGE, what, bound, models=("tokio",), profile="service", playback=False, mem_gb=30, timeout=timeout, **kw)
+PROPS["C12"] = Prop(
+    harnesses=[
+        _h12("latency_mode_two_attempts", "latency mode (fixed positive delay), max_hedged_attempts = 2",
+             "delay any whole ms in (0, 30 s]; per-attempt latency any whole ms <= 60 s, ok/err outcome; 4 scheduling rounds: advance clock by any amount, run any subset of the attempt tasks, poll the call"),
+        _h12("parallel_mode_two_attempts", "parallel mode (Immediate), 2 attempts", "3 rounds, otherwise as above"),
+        _h12("single_attempt", "max_hedged_attempts = 1", "3 rounds", tiers=("thorough",)),
+        _h12("zero_delay_two_attempts", "Fixed(0) delay = parallel", "3 rounds", tiers=("thorough",)),
+        _h12("latency_mode_three_attempts", "latency mode, 3 attempts", "5 rounds", tiers=("thorough",), timeout=5400),
+    ],
+    functions=["tower_resilience_hedge::{Hedge::{new,poll_ready,call},execute_with_hedging}", "HedgeDelay::get_delay"],
+    bounds="max_hedged_attempts 1..=3 (quick: 2), <= 4 (5) scheduling rounds, latencies <= 60 s, delay <= 30 s",
+    outside="more scheduling rounds / attempts; per-attempt Dynamic delays; that tokio's timer wakes the call at the delay (the harness polls at arbitrary instants)",
+    assumptions=["tokio spawn / mpsc / sleep replaced by the model; the harness is the scheduler; `select!` is tokio's macro text (biased)", "Instant::now -> virtual clock"],
+)
+
+# ---------------------------------------------------------------------------
+# C11 coalesce
+# ---------------------------------------------------------------------------
+COAL = "tower-resilience-coalesce"
+_c11 = lambda n, what, bound, **kw: H("verif_kani::c11::" + n, COAL, what, bound, models=("tokio", "hashbrown"), profile="service", playback=False, mem_gb=24, timeout=2400, **kw)
+PROPS["C11"] = Prop(
+    harnesses=[
+        _c11("leader_waiter_and_other_key", "one inner call per key; waiter gets a clone of the leader's result or LeaderCancelled at its next poll; key reusable at once; keys independent",
+             "3 requests over 2 keys through clones of one service (+ a 4th after completion/cancellation); leader completed (inner completes at a poll of the solver's choice, ok/err) or dropped; all 32-bit requests/results"),
+        _c11("dropped_waiter_is_harmless", "a dropped waiter does not disturb the leader or other waiters", "1 leader, 2 waiters on one key"),
+    ],
+    functions=["tower_resilience_coalesce::service::{CoalesceService::{new,poll_ready,call},CoalesceFuture::{poll,drop},InFlight::{try_join,complete,cancel}}"],
+    bounds="<= 4 requests over 2 keys, fixed creation order (leader, waiter, other key), leader outcome and cancellation symbolic",
+    outside="arbitrary interleavings of more requests; leader PANIC (= drop during unwinding; only the drop is modelled); hashing (the map is an association-list model)",
+    assumptions=["hashbrown::HashMap replaced by an association-list model, tokio::sync::broadcast by the model; parking_lot::Mutex is the real one (uncontended)"],
 )
 
 # ---------------------------------------------------------------------------
